@@ -108,7 +108,7 @@ def rule_info_set(repo: Repo, rep: Report) -> int:
     rep.expect(len(rd) == 1 and unparse(rd[0].value) == "rank.Q.values" and any(b.startswith("rank = pd.read_csv(csv_path, sep=' ', index_col=0)") for b in body) and any("'rank_polar.csv'" in b for b in body), "INFO-SET", fi, "ranking = column Q of rank_polar.csv in file order", "the validated table is the one that is read", "the ranking is not read from rank_polar.csv column Q")
     # user masks validated
     checks = [unparse(s.test) for s in stmts_of(fi.body) if isinstance(s, ast.If) and any(isinstance(x, ast.Raise) for x in s.body)]
-    rep.check("len(info_indices) != self.code_length" in checks and "torch.sum(info_indices) != self.code_dimension" in checks, "INFO-SET", fi, "user mask: length N and exactly k ones, else ValueError", "an inadmissible mask is rejected", "user-supplied information masks are not validated (length N, exactly k ones)")
+    rep.shape("len(info_indices) != self.code_length" in checks and "torch.sum(info_indices) != self.code_dimension" in checks, (not checks) or (any("len(info_indices)" in c_ or "numel()" in c_ or "shape[0]" in c_ for c_ in checks) and not any(("sum" in c_ or "count_nonzero" in c_) and "code_dimension" in c_ for c_ in checks)), "INFO-SET", fi, "user mask: length N and exactly k ones, else ValueError", "an inadmissible mask is rejected", "user-supplied information masks are not validated (length N, exactly k ones)")
     m = [s for s in stmts_of(fi.body) if isinstance(s, ast.Assign) and attr_chain(s.targets[0]) == "self.m"]
     rep.expect(len(m) == 1 and any(b.startswith("assert 2 ** self.m == code_length") for b in body), "INFO-SET", fi, "N must be a power of two (assert 2**m == N)", "admissible lengths only", "length validation changed")
     return n + 4
@@ -154,7 +154,10 @@ def rule_frozen_value(repo: Repo, rep: Report) -> int:
         rep.expect(bool(ok), "FROZEN-VALUE", dr, "SC leaf: frozen bit = zeros if frozen_zeros else ones", "same selector as the encoder", "SC frozen leaf not recognised")
     init = repo.func(SC, "SuccessiveCancellationDecoder.__init__")
     vals = {attr_chain(s.targets[0]): unparse(s.value) for s in stmts_of(init.body) if isinstance(s, ast.Assign) and attr_chain(s.targets[0])}
-    rep.check(vals.get("self.frozen_zeros") == "encoder.frozen_zeros" and vals.get("self.polar_i") == "encoder.polar_i" and vals.get("self.info_indices") == "encoder.info_indices", "FROZEN-VALUE", init, f"SC takes frozen_zeros={vals.get('self.frozen_zeros')}, polar_i={vals.get('self.polar_i')}, info_indices={vals.get('self.info_indices')}", "decoder configuration = encoder configuration", "the SC decoder does not take its frozen value / interleaving / information set from the encoder")
+    def _cfg_wrong(v, attr):
+        return v is not None and v != f"encoder.{attr}" and (v in ("True", "False") or v.startswith("not ") or (v.startswith("encoder.") and v != f"encoder.{attr}"))
+
+    rep.shape(vals.get("self.frozen_zeros") == "encoder.frozen_zeros" and vals.get("self.polar_i") == "encoder.polar_i" and vals.get("self.info_indices") == "encoder.info_indices", any(_cfg_wrong(vals.get(f"self.{a_}"), a_) for a_ in ("frozen_zeros", "polar_i", "info_indices")), "FROZEN-VALUE", init, f"SC takes frozen_zeros={vals.get('self.frozen_zeros')}, polar_i={vals.get('self.polar_i')}, info_indices={vals.get('self.info_indices')}", "decoder configuration = encoder configuration", "the SC decoder does not take its frozen value / interleaving / information set from the encoder")
     n += 2
     # polar BP init: +clip <=> bit 0
     ig = repo.func(PBP, "BeliefPropagationPolarDecoder._initialize_graph")
@@ -177,7 +180,7 @@ def rule_frozen_value(repo: Repo, rep: Report) -> int:
     if not done:
         rep.undecided("FROZEN-VALUE", ig, "BP frozen initialisation", "not recognised")
     vals = {attr_chain(s.targets[0]): unparse(s.value) for s in stmts_of(repo.func(PBP, "BeliefPropagationPolarDecoder.__init__").body) if isinstance(s, ast.Assign) and attr_chain(s.targets[0])}
-    rep.check(vals.get("self.frozen_zeros") == "encoder.frozen_zeros", "FROZEN-VALUE", repo.func(PBP, "BeliefPropagationPolarDecoder.__init__"), f"BP takes frozen_zeros = {vals.get('self.frozen_zeros')}", "encoder's configuration", "polar BP does not take the frozen value from the encoder")
+    rep.shape(vals.get("self.frozen_zeros") == "encoder.frozen_zeros", vals.get("self.frozen_zeros") in ("True", "False", "not encoder.frozen_zeros"), "FROZEN-VALUE", repo.func(PBP, "BeliefPropagationPolarDecoder.__init__"), f"BP takes frozen_zeros = {vals.get('self.frozen_zeros')}", "encoder's configuration", "polar BP does not take the frozen value from the encoder")
     return n + 2
 
 
